@@ -15,7 +15,7 @@ from . import llir, ir2c
 
 ROOT = os.path.dirname(os.path.dirname(os.path.abspath(__file__)))
 REPO = os.environ.get('VERIF_REPO', '/repo')
-WORK = os.path.join(ROOT, '.work')
+WORK = os.path.join(ROOT, '.work') if os.path.realpath(REPO) == '/repo' else os.path.join(ROOT, '.work', 'mut')
 RT = os.path.join(ROOT, 'rt')
 
 CLANG_FLAGS = ['-std=c++14', '-O1', '-g0', '-DNDEBUG', '-fno-vectorize', '-fno-slp-vectorize',
